@@ -547,10 +547,8 @@ class ProductState:
                 self.state = ps.reshape((dims, 1))
                 return True
             if new_dimensions < fock.dimensions:
-                to = fock.trace_out()
-                assert isinstance(to, jnp.ndarray)
                 assert isinstance(fock.index, tuple)
-                num_quanta = num_quanta_vector(to)
+                num_quanta = fock._num_quanta
                 if num_quanta >= new_dimensions:
                     return False
                 slices = [slice(None)] * ps.ndim
